@@ -30,6 +30,12 @@ func removeHopByHopHeaders(header http.Header) {
 			if token == "" {
 				continue
 			}
+			// Cache-Control and Expires are meant for every recipient and are "never appropriate as
+			// a connection option" (RFC 9110 section 7.6.1): a sender listing them must not make the
+			// proxy drop, unread, the very directives that decide whether the response may be stored.
+			if token == "Cache-Control" || token == "Expires" {
+				continue
+			}
 
 			header.Del(token)
 			slog.Debug("Removed header referenced in Connection header:", "header", token)
